@@ -15,6 +15,10 @@ namespace {
 struct FakeDir {
     std::vector<dirent> ents;
     size_t pos = 0;
+    // POSIX: "the returned pointer may be overwritten by another call to readdir() on the same stream" — the simulated
+    // stream does exactly that (one slot, rewritten by every call, freed by closedir), which glibc only does once per 32 KiB
+    dirent* slot = nullptr;
+    ~FakeDir() { delete slot; }
 };
 std::set<FakeDir*> g_fake;
 sim::DirSimConfig g_cfg;
@@ -65,7 +69,10 @@ struct dirent* readdir(DIR* d) {
     auto* f = reinterpret_cast<FakeDir*>(d);
     if (!g_fake.count(f)) return r_readdir(d);
     if (f->pos >= f->ents.size()) return nullptr;
-    return &f->ents[f->pos++];
+    if (!f->slot) f->slot = new dirent;
+    memset(f->slot, 0x5a, sizeof(dirent));      // scribble over the previous entry first
+    *f->slot = f->ents[f->pos++];
+    return f->slot;
 }
 struct dirent64* readdir64(DIR* d) { return reinterpret_cast<dirent64*>(readdir(d)); }
 
